@@ -17,6 +17,14 @@ claimed = {
    text="Seeded simulation of histories on one seekable ZUC cipher object (ZUC-128, ZUC-256, 128-EEA3; default and explicit state-bucket sizes 0..1024; sequential and positioned XOR calls forwards and backwards across rounds, words and buckets; in-place, larger-dst and guard-page buffers) and one MAC object (128-EIA3, ZUC-256 MAC with 32/64/128-bit tags; write splits, Sum, Finish with every bit-length class, Reset, abandon-and-reuse), each call compared with bit-serial models at absolute positions; five tiers compared per run. Sampling, not proof.",
    note="Trusted: harness/model/zucm (anchored on 3GPP and ZUC-256 vectors at worker start). Known finding zuc256-mac-tail (64/128-bit tags, more than 32 bits after the last 128-bit block) is reported, not repaired, and recognised only by exact equality with a model carrying precisely that deviation.",
    technique="deterministic simulation: seeded seek/write histories on stream and MAC objects vs bit-serial reference models, multi-configuration nodes, ddmin replay"),
+ "C04": dict(cat="exploration", design="DESIGN.md section 6 (C04)",
+   text="Weak fit, disclosed: the AEAD object has no seam, so only the record in transit is simulated. A sender seals records with SM4-GCM/CCM (all nonce and tag sizes the constructors admit, crafted 16-byte GCM nonces whose derived 32-bit counter wraps, dst prefix / in place / exact spare capacity / guard-page inputs); a faulty transport delivers each record untouched and altered - a seeded byte of nonce, AAD, ciphertext or tag, the exhaustive set of single-byte positions of a record (sampled above 700 bytes), truncation, extension, fields swapped in from another record - and a receiver opens it. Sealed bytes and every Open verdict/plaintext are compared with independent bit-serial GCM/CCM models over a model SM4; after a refused Open the output region must be zeroed or untouched; canaries observe writes outside dst. Six tiers compared per run. Sampling plus per-record fault enumeration, not proof.",
+   note="Trusted: harness/model/aead (anchored on the GCM specification test cases and RFC 3610 vectors at worker start), model SM4. The first sentence of the property (exact output) is a pure function decided by plain model comparison on the untouched deliveries.",
+   technique="deterministic simulation: sealed records on a simulated faulty transport (byte alteration enumeration, truncation, field substitution) vs reference models, multi-configuration nodes, ddmin replay"),
+ "C17": dict(cat="exploration", design="DESIGN.md section 6 (C17)",
+   text="Seeded simulation, inside a testing/synctest fake-clock bubble, of Hash/HMAC/CTR DRBG objects (SM3, SHA-1/2; SM4, AES-128/192/256; NIST and GM modes; test level and, in the thorough tier, level 2) over histories of generate (sizes 0..max+1, with/without additional input), reseed (valid and below-minimum entropy) and clock advances placed just below / on / past the GM time limit, and of the DrbgPrng reader wrapper over read/clock histories with a scripted entropy source failing (error, EOF, short read, data+EOF) at chosen call indices. Output bytes are compared with SP 800-90A models; the model's own reseed bookkeeping decides exactly which generate call must be refused, refused calls must leave the canary-filled buffer and the state untouched, wrapper output must equal the chained model requests reseeded with exactly the bytes the source served, and every source fault must surface as an error. Sampling, not proof.",
+   note="Trusted: harness/model/drbgm (SP 800-90A text, anchored on CAVP vectors at worker start); GM/T 0105 deviations taken from the package documentation (standard text unavailable offline). Input-length validation is not mirrored (error => no effect, acceptance => equals model). At elapsed == GM interval either verdict is accepted. No backwards clock jumps under synctest.",
+   technique="deterministic simulation: seeded generate/reseed/clock histories under a simulated clock and a fault-injecting entropy source vs reference model with reseed bookkeeping, ddmin replay"),
  "C19": dict(cat="exploration", design="DESIGN.md section 6 (C19)",
    text="Seeded simulation of histories on one long-lived MAC object for all eight GB/T 15852.1 constructions over SM4, AES and DES/3DES: several messages in sequence, caller slices with spare capacity, and for CMAC simulator-chosen Write splits, Sum interleavings, reset and abandon-and-reuse; every tag is compared with independent models (truncation and exact length included), the caller's bytes are canary-checked, and full-size tags of messages differing in one bit of the last block must not collide. Three nodes (asm SM4, generic SM4, purego) with cross-node trace equality. Sampling, not proof.",
    note="Trusted: harness/model/macm (anchored on RFC 4493, SP 800-38B TDEA, GB/T 15852.1 appendix vectors at worker start), model SM4, Go's crypto/aes and crypto/des as block ciphers on both sides. LMAC only with key length = block length; CBCR on the empty message only for history independence (unsettled offline). Known finding cbcr-left-shift is reported, not repaired.",
